@@ -9,6 +9,7 @@ import (
 	"os"
 	"reflect"
 	"runtime"
+	"strings"
 	"time"
 
 	"github.com/risor-io/risor"
@@ -268,7 +269,14 @@ func piecesWorker(req N) (resp N) {
 			if v == nil {
 				v = vm.New(code, cfg.VMOpts()...)
 			}
-			if err := v.Run(ctx); err != nil {
+			runCtx := ctx
+			if strings.HasPrefix(src, "//@deadline\n") {
+				// this input is run under a context of its own that ends after 40 ms
+				var cancelPiece context.CancelFunc
+				runCtx, cancelPiece = context.WithTimeout(ctx, 40*time.Millisecond)
+				defer cancelPiece()
+			}
+			if err := v.Run(runCtx); err != nil {
 				v.SetIP(code.InstructionCount())
 				piece = N{"k": "raise", "v": run.ErrKind(err), "msg": err.Error(), "msgcps": run.Cps(err.Error())}
 				return
